@@ -78,15 +78,20 @@ Single == Len(Sc.weights) <= 1
 ParetoMode == Builtin /\ Sc.priority = "pareto" /\ ~Single
 
 \* what a satisfiable check of the current solver may return
+\* (optimality is only promised for solve() on the problem as declared: once "differs from" requests have
+\*  been added, C13 asks for a valid schedule, not for an optimal one)
 Candidates ==
-  IF ~Builtin THEN Allowed
+  IF ~Builtin \/ blocked # {} THEN Allowed
   ELSE IF Single THEN BestOf(Allowed)              \* one objective: every priority mode optimises it
   ELSE CASE Sc.priority = "pareto" -> ParetoOf(Allowed)
          [] Sc.priority = "lex"    -> LexOf(Allowed, 1)
          [] Sc.priority = "weight" -> BestOf(Allowed)
          [] OTHER                  -> Allowed          \* box: any model (values are reported apart)
 \* when an unsatisfiable answer is truthful (Pareto mode: the front has been walked)
-UnsatOK == IF ParetoMode THEN \A w \in ParetoOf(Allowed) : Pt(w).o \in pseen
+\* Pareto mode (several objectives): successive checks walk the front and then fail by design; what z3
+\* still answers once "differs from" clauses are added in between is not specified, so any unsatisfiable
+\* answer after a first Pareto point is accepted (C13 excludes Pareto mode explicitly)
+UnsatOK == IF ParetoMode THEN (pseen # {} \/ Allowed = {})
            ELSE Candidates = {}
 
 Init ==
@@ -244,7 +249,7 @@ Prop_C13_ReturnedIsValid ==
 \* C07: a completed optimisation returns a best point; an early stop returns a point no worse
 \* than every incumbent found before
 Prop_C07_Optimal ==
-  (Done /\ Optimising /\ ret > 0 /\ definite /\ ~ParetoMode /\ (Builtin => Sc.priority = "weight"))
+  (Done /\ Optimising /\ ret > 0 /\ definite /\ ~ParetoMode /\ (Builtin => (Single \/ Sc.priority = "weight")) /\ blocked = {})
      => ret \in BestOf(Remaining)
 Prop_C07_NoWorseThanIncumbents ==
   (Done /\ Incremental /\ ret > 0) => \A v \in incs : NoWorse(Val(ret), v)
